@@ -5,9 +5,12 @@ V = os.path.dirname(os.path.dirname(os.path.abspath(__file__)))
 base = json.load(open(os.path.join(V, "manifest.base.json")))
 props = [json.loads(l)["id"] for l in open(os.path.join(V, "properties.jsonl")) if l.strip()]
 checks, claimed = [], set()
+ready = set(open(os.path.join(V, "checks.d", "READY")).read().split())   # ids reviewed by the coordinator
 for f in sorted(glob.glob(os.path.join(V, "checks.d", "C*.json"))):
     c = json.load(open(f))
     pid = c["property_id"]
+    if pid not in ready:
+        continue
     claimed.add(pid)
     checks.append({
         "property_id": pid,
